@@ -39,6 +39,11 @@ def r1(ctx: Ctx) -> None:
                 ctx.check(ok, f, l.node, "the chain ends exactly when the accumulated dict names no parent", "while 'extends' in results", bp.describe()[:120])
                 continue
             parent = ("sub", ph, ("const", "extends"))
+            alt = [c[2] for c, pol in conds if c[0] == "cmp" and c[1] == "in" and c[3] == ("sym", "whole_json")]
+            popped_parent = False
+            if alt and alt[0] != parent and alt[0][0] == "call" and alt[0][1] == ("attr", ph, "pop") and alt[0][2] == (("const", "extends"),):
+                parent = alt[0]  # the name of the parent is taken with results.pop("extends")
+                popped_parent = True
             has_parent = [pol for c, pol in conds if c == ("cmp", "in", parent, ("sym", "whole_json"))]
             cyc = [(c, pol) for c, pol in conds if c[0] == "cmp" and c[1] == "in" and c[2] == parent and c[3] != ("sym", "whole_json")]
             if bp.exit[0] == "raise":
@@ -50,9 +55,9 @@ def r1(ctx: Ctx) -> None:
             ctx.check(ok, f, l.node, "a merge happens only after both error tests passed", "parent in whole_json and parent not in history", bp.describe()[:160])
             if cyc:
                 hist = cyc[0][0][3]
-                app = [e for e in calls(bp) if e.name == "append" and e.recv == hist and e.args and strip_ver(e.args[0]) == parent]
+                app = [e for e in calls(bp) if e.name == "append" and e.recv == hist and e.args and strip_ver(e.args[0]) == strip_ver(parent)]
                 ctx.check(len(app) == 1, f, l.node, "every visited parent is recorded in the history used by the cycle test", "history.append(parent)", f"{len(app)} append(s)")
-            pops = [e for e in calls(bp) if e.name == "pop" and e.recv == ph and e.args and e.args[0] == ("const", "extends")]
+            pops = [e for e in calls(bp) if e.name == "pop" and strip_ver(e.recv) == strip_ver(ph) and e.args and e.args[0] == ("const", "extends")]
             dels = [e for e in bp.events if e.kind == "del" and e.base == ph and e.index == ("const", "extends")]
             ctx.check(len(pops) + len(dels) == 1, f, l.node, "the entry's own `extends` is consumed before merging (the parent's may take its place)", "results.pop('extends')", f"{len(pops) + len(dels)} removal(s)")
             v = strip_ver(bp.env.get(res) or NONE)
@@ -63,11 +68,12 @@ def r1(ctx: Ctx) -> None:
 
                 raw = (bp.env.get(res) or NONE)[2][0]
                 comp = seq_value(bp, raw, outer=(p,))
-                ok = comp is not None and comp[0] == "comp" and comp[1] == "seq" and len(comp[3]) == 1
+                # dict(<pairs>, **r) and dict({k: v ...}, **r) build the same mapping
+                ok = comp is not None and comp[0] == "comp" and comp[1] in ("seq", "dictcomp") and len(comp[3]) == 1
                 if ok:
                     g = comp[3][0]
                     names_ = g[0]
-                    ok = len(names_) == 2 and comp[2] == ("tuple", (("bound", names_[0]), ("bound", names_[1]))) and g[1] == ("call", ("attr", ("sub", ("sym", "whole_json"), parent), "items"), (), (), None)
+                    ok = len(names_) == 2 and comp[2] == ("tuple", (("bound", names_[0]), ("bound", names_[1]))) and g[1] == ("call", ("attr", ("sub", ("sym", "whole_json"), strip_ver(parent)), "items"), (), (), None)
                     ok = ok and len(g[2]) == 1
                     if ok:
                         cc, cpol = canon_pred(g[2][0])
